@@ -582,3 +582,663 @@ Proof.
     + intros [k x] Hin. specialize (Hgood _ Hin). unfold bad_entry, child in Hgood. cbn [fst snd] in *.
       unfold has_field. destruct (flookup fs k); [reflexivity | discriminate].
 Qed.
+
+Lemma each_err rec n l e : each rec n l = Err e -> exists f, In f l /\ newval rec n f = Err e.
+Proof.
+  induction l as [|f r IH]; cbn [each]; intros H; [discriminate|].
+  destruct (newval rec n f) as [nv|e'] eqn:E; cbn [bind] in H.
+  - destruct (each rec n r) as [r'|e'] eqn:E2; cbn [bind] in H; [discriminate|]. injection H as ->.
+    destruct (IH eq_refl) as [f0 [Hin Hf0]]. exists f0. split; [now right | exact Hf0].
+  - injection H as ->. exists f. split; [now left | exact E].
+Qed.
+
+(* whatever goes wrong is an exception (never an exit), so "raises" is observable as such *)
+Lemma replace_ref_err o : forall cs e, replace_ref o cs = Err e -> exists c, e = Raise c.
+Proof.
+  induction o as [t r|d _|cls fs IH] using value_ind'; intros cs e H; cbn [replace_ref] in H.
+  - injection H as <-. eauto.
+  - injection H as <-. eauto.
+  - destruct (each replace_ref cs fs) as [fs'|e'] eqn:E; cbn [bind] in H.
+    + destruct (forallb _ cs); [discriminate | injection H as <-; eauto].
+    + injection H as ->. apply each_err in E as [f [Hin Hf]]. unfold newval in Hf.
+      rewrite Forall_forall in IH.
+      destruct (fknd f); destruct (dget cs (fname f)) as [[| sub |]|]; try discriminate;
+        try (injection Hf as <-; eauto).
+      destruct (is_dc (fval f)); [eapply IH; eassumption | discriminate].
+Qed.
+
+Lemma each_lookup rec n l : forall l', each rec n l = Ok l' -> forall name,
+  match flookup l name with
+  | None => flookup l' name = None
+  | Some (kd, v) => exists nv, newval rec n (name, kd, v) = Ok nv /\ flookup l' name = Some (kd, nv)
+  end.
+Proof.
+  induction l as [|[[n0 kd0] v0] r IH]; intros l' H name; cbn [each] in H.
+  - injection H as <-. reflexivity.
+  - apply bind_ok in H as [nv [Hnv H]]. apply bind_ok in H as [r' [Hr H]]. injection H as <-.
+    change (fname (n0, kd0, v0)) with n0. change (fknd (n0, kd0, v0)) with kd0.
+    cbn [flookup]. destruct (String.eqb name n0) eqn:E.
+    + apply String.eqb_eq in E. subst. exists nv. split; [exact Hnv | reflexivity].
+    + apply (IH r' Hr name).
+Qed.
+
+Lemma replace_ref_dc_ok cls fs cs o' : replace_ref (VDc cls fs) cs = Ok o' ->
+  exists fs', each replace_ref cs fs = Ok fs' /\ forallb (fun kv => has_field fs (fst kv)) cs = true /\ o' = VDc cls fs'.
+Proof.
+  cbn [replace_ref]. intros H. apply bind_ok in H as [fs' [E H]]. exists fs'.
+  destruct (forallb _ cs); [|discriminate]. injection H as <-. auto.
+Qed.
+
+(* ====================================================================== *)
+(* frame: every addressed leaf has the new value ...                       *)
+(* ====================================================================== *)
+Theorem addressed o : forall cs o' q v, wf_obj o = true -> deep_nf cs = true ->
+  replace_ref o cs = Ok o' -> In (q, v) (assigns o cs) -> get o' q = Some v.
+Proof.
+  induction o as [t r|d _|cls fs IH] using value_ind'; intros cs o' q v W D H Hin; try discriminate.
+  apply wf_obj_dc in W as [N Wf]. rewrite Forall_forall in IH.
+  assert (Kc : NoDup (dkeys cs)). { apply deep_nf_keys, keys_ok_iff in D. tauto. }
+  apply replace_ref_dc_ok in H as [fs' [E [Hf ->]]].
+  rewrite assigns_dc in Hin. apply assigns_items_In in Hin as [k [x [q' [Hkx [-> Hq']]]]].
+  rewrite forallb_forall in Hf. specialize (Hf _ Hkx). cbn [fst] in Hf. unfold has_field in Hf.
+  assert (L := each_lookup _ _ _ _ E k).
+  destruct (flookup fs k) as [[kd y]|] eqn:Lk; [|discriminate].
+  destruct L as [nv [Hnv Lk']]. assert (Hfin := flookup_In _ _ _ _ Lk).
+  unfold newval in Hnv. change (fname (k, kd, y)) with k in Hnv. change (fknd (k, kd, y)) with kd in Hnv.
+  change (fval (k, kd, y)) with y in Hnv. rewrite (In_dget _ _ _ Kc Hkx) in Hnv.
+  destruct kd as [|t d]; [|discriminate].
+  unfold child in Hq'. rewrite Lk in Hq'.
+  cbn [get]. unfold child. rewrite Lk'.
+  destruct x as [t0 r0| sub | c0 f0].
+  - destruct Hq' as [Hq'|[]]. injection Hq' as <- <-. injection Hnv as <-. reflexivity.
+  - destruct y as [t1 r1| d1 | c' f'].
+    + destruct Hq' as [Hq'|[]]. injection Hq' as <- <-. injection Hnv as <-. reflexivity.
+    + destruct Hq' as [Hq'|[]]. injection Hq' as <- <-. injection Hnv as <-. reflexivity.
+    + cbn [is_dc] in Hnv.
+      apply (IH _ Hfin sub nv q' v (Wf _ Hfin) (deep_nf_sub _ _ _ D (In_dget _ _ _ Kc Hkx)) Hnv Hq').
+  - destruct Hq' as [Hq'|[]]. injection Hq' as <- <-. injection Hnv as <-. reflexivity.
+Qed.
+
+(* ====================================================================== *)
+(* ... and every other node is what it was                                 *)
+(* ====================================================================== *)
+Lemma field_same_refl f : field_same f f = true.
+Proof.
+  unfold field_same. rewrite String.eqb_refl, fkind_eqb_refl. cbn [andb].
+  destruct (fknd f); [reflexivity | now rewrite value_eqb_refl].
+Qed.
+
+Lemma node_same_refl a : node_same a a = true.
+Proof.
+  destruct a as [[t r| d | c f]|]; cbn [node_same]; try apply value_eqb_refl; [|reflexivity].
+  rewrite String.eqb_refl. cbn [andb]. unfold fields_same. apply all2_refl.
+  apply Forall_forall. intros x _. apply field_same_refl.
+Qed.
+
+Lemma each_fields_same rec n l : forall l', each rec n l = Ok l' -> fields_same l l' = true.
+Proof.
+  unfold fields_same. induction l as [|[[n0 kd0] v0] r IH]; intros l' H; cbn [each] in H.
+  - injection H as <-. reflexivity.
+  - apply bind_ok in H as [nv [Hnv H]]. apply bind_ok in H as [r' [Hr H]]. injection H as <-.
+    cbn [all2]. rewrite (IH r' Hr), andb_true_r.
+    change (fname (n0, kd0, v0)) with n0. change (fknd (n0, kd0, v0)) with kd0.
+    unfold field_same. cbn [fname fknd fval fst snd]. rewrite String.eqb_refl, fkind_eqb_refl. cbn [andb].
+    destruct kd0 as [|t d]; [reflexivity|].
+    unfold newval in Hnv. cbn [fname fknd fval fst snd] in Hnv.
+    destruct (dget n n0); [discriminate|]. injection Hnv as <-. rewrite (value_eqb_refl (VLeaf t d)). apply orb_true_r.
+Qed.
+
+Lemma untouched_In A p q v : untouched A p = true -> In (q, v) A -> is_prefix q p = false.
+Proof.
+  unfold untouched. rewrite forallb_forall. intros H Hin. specialize (H _ Hin). cbn [fst] in H.
+  now apply negb_true_iff in H.
+Qed.
+
+Theorem untouched_same o : forall cs o' p, wf_obj o = true -> deep_nf cs = true ->
+  replace_ref o cs = Ok o' -> untouched (assigns o cs) p = true -> node_same (get o p) (get o' p) = true.
+Proof.
+  induction o as [t r|d _|cls fs IH] using value_ind'; intros cs o' p W D H U; try discriminate.
+  apply wf_obj_dc in W as [N Wf]. rewrite Forall_forall in IH.
+  assert (Kc : NoDup (dkeys cs)). { apply deep_nf_keys, keys_ok_iff in D. tauto. }
+  apply replace_ref_dc_ok in H as [fs' [E [Hf ->]]].
+  destruct p as [|k r].
+  - cbn [get node_same]. rewrite String.eqb_refl. cbn [andb]. eapply each_fields_same; eassumption.
+  - cbn [get]. assert (L := each_lookup _ _ _ _ E k). unfold child.
+    destruct (flookup fs k) as [[kd y]|] eqn:Lk.
+    + destruct L as [nv [Hnv Lk']]. rewrite Lk'. destruct kd as [|t d]; [|reflexivity].
+      assert (Hfin := flookup_In _ _ _ _ Lk).
+      unfold newval in Hnv. cbn [fname fknd fval fst snd] in Hnv.
+      destruct (dget cs k) as [x|] eqn:G.
+      * assert (Hkx := dget_In _ _ _ G).
+        assert (Plain : assigns_v x (Some y) = [([], x)] -> False).
+        { intros Ha. assert (Hin : In ([k], x) (assigns (VDc cls fs) cs)).
+          { rewrite assigns_dc. apply assigns_items_In. exists k, x, []. repeat split; [exact Hkx|].
+            unfold child. rewrite Lk, Ha. now left. }
+          apply (untouched_In _ _ _ _ U) in Hin. cbn [is_prefix] in Hin. rewrite String.eqb_refl in Hin. discriminate. }
+        destruct x as [t0 r0| sub | c0 f0]; try (exfalso; apply Plain; reflexivity).
+        destruct y as [t1 r1| d1 | c' f']; try (exfalso; apply Plain; reflexivity).
+        cbn [is_dc] in Hnv.
+        apply (IH _ Hfin sub nv r (Wf _ Hfin) (deep_nf_sub _ _ _ D G) Hnv).
+        unfold untouched. apply forallb_forall. intros [q' v] Hq'. cbn [fst].
+        assert (Hin : In (k :: q', v) (assigns (VDc cls fs) cs)).
+        { rewrite assigns_dc. apply assigns_items_In. exists k, (VDict sub), q'. repeat split; [exact Hkx|].
+          unfold child. rewrite Lk. exact Hq'. }
+        apply (untouched_In _ _ _ _ U) in Hin. cbn [is_prefix] in Hin. rewrite String.eqb_refl in Hin.
+        cbn [andb] in Hin. now rewrite Hin.
+      * injection Hnv as <-. apply node_same_refl.
+    + rewrite L. reflexivity.
+Qed.
+
+(* the executable spec holds of the reference, hence (model_ref) of the model *)
+Theorem ref_meets_spec o cs : wf_obj o = true -> deep_nf cs = true -> frame_check o cs (replace_ref o cs) = true.
+Proof.
+  intros W D. unfold frame_check. assert (K := ok_iff_not_must_raise o cs W D).
+  destruct (must_raise o cs) eqn:M; cbn [negb] in K.
+  - destruct (replace_ref o cs) as [o'|e] eqn:R; [discriminate|].
+    destruct (replace_ref_err _ _ _ R) as [c ->]. reflexivity.
+  - destruct (replace_ref o cs) as [o'|e] eqn:R; [|discriminate].
+    apply andb_true_iff. split; apply forallb_forall.
+    + intros [q v] Hin. cbn [fst snd]. rewrite (addressed o cs o' q v W D R Hin). cbn [opt_value_eqb]. apply value_eqb_refl.
+    + intros p _. destruct (untouched (assigns o cs) p) eqn:U; cbn [implb]; [|reflexivity].
+      apply (untouched_same o cs o' p W D R U).
+Qed.
+
+(* ====================================================================== *)
+(* the empty change set; the keyword form                                  *)
+(* ====================================================================== *)
+(* what re-running the constructor does to init=False fields *)
+Definition reset_noninit (fs : list field) : list field :=
+  map (fun f => match fknd f with FInit => f | FNonInit t d => (fname f, FNonInit t d, VLeaf t d) end) fs.
+(* every init=False field of this instance holds its default *)
+Definition noninit_at_default (fs : list field) : bool :=
+  forallb (fun f => match fknd f, fval f with
+                    | FInit, _ => true
+                    | FNonInit t d, VLeaf t' d' => String.eqb t t' && String.eqb d d'
+                    | FNonInit _ _, _ => false
+                    end) fs.
+
+Lemma loop_nil rec l : loop F0 rec [] l = Ok [].
+Proof. induction l as [|f r IH]; [reflexivity | exact IH]. Qed.
+
+Lemma dc_fields_nil fs : dc_fields fs [] = Ok (reset_noninit fs).
+Proof.
+  induction fs as [|[[n k] v] r IH]; [reflexivity|]. cbn [dc_fields reset_noninit map]. fold (reset_noninit r).
+  destruct k as [|t d]; cbn [dhas dget]; rewrite IH; reflexivity.
+Qed.
+
+Theorem replace_nil cls fs : replace F0 (VDc cls fs) [] = Ok (VDc cls (reset_noninit fs)).
+Proof.
+  rewrite replace_eq. cbn [f_sep F0 unflatten_split unflatten map fold_left bind f_leftover].
+  rewrite loop_nil. cbn [bind leftover filter app dc_replace]. rewrite dc_fields_nil. reflexivity.
+Qed.
+
+Lemma reset_at_default fs : noninit_at_default fs = true -> reset_noninit fs = fs.
+Proof.
+  induction fs as [|[[n k] v] r IH]; [reflexivity|]. cbn [noninit_at_default forallb reset_noninit map].
+  fold (noninit_at_default r). fold (reset_noninit r). intros H. apply andb_true_iff in H as [H1 H2].
+  rewrite (IH H2). cbn [fknd fval fname fst snd] in *. destruct k as [|t d]; [reflexivity|].
+  destruct v as [t' d'| |]; try discriminate. apply andb_true_iff in H1 as [E1 E2].
+  apply String.eqb_eq in E1, E2. now subst.
+Qed.
+
+Theorem keyword_form F o cs : replace_call F o None cs = replace_call F o (Some cs) [].
+Proof. unfold replace_call. destruct cs; reflexivity. Qed.
+
+Theorem both_forms_rejected F o x r y k : replace_call F o (Some (x :: r)) (y :: k) = Err (Raise (f_both_err F)).
+Proof. reflexivity. Qed.
+
+(* ====================================================================== *)
+(* dotted form <-> nested form: unflatten_split (flatten_join cs) = cs      *)
+(* ====================================================================== *)
+Local Notation prefixkv k := (fun kv : list string * value => (k :: fst kv, snd kv)).
+
+Lemma flatten_cons k x (r : dict) :
+  flatten ((k, x) :: r) = (map (prefixkv k) (flatten_val x) ++ flatten r)%list.
+Proof. reflexivity. Qed.
+
+Lemma flatten_paths_nonempty (d : dict) : Forall (fun kv => fst kv <> []) (flatten d).
+Proof.
+  induction d as [|[k x] r IH]; [constructor|]. rewrite flatten_cons. apply Forall_app. split; [|exact IH].
+  apply Forall_forall. intros kv Hin. apply in_map_iff in Hin as [kv' [<- _]]. discriminate.
+Qed.
+
+Lemma dget_last (acc : dict) k v : ~ In k (dkeys acc) -> dget (acc ++ [(k, v)])%list k = Some v.
+Proof. intros H. rewrite dget_app. apply dget_none in H. rewrite H. cbn [dget]. now rewrite String.eqb_refl. Qed.
+
+Lemma insert_path_cons2 k k2 rest v (d : dict) :
+  insert_path (k :: k2 :: rest) v d =
+  match dget d k with
+  | None => bind (insert_path (k2 :: rest) v []) (fun sub => Ok (d ++ [(k, VDict sub)])%list)
+  | Some (VDict sub) => bind (insert_path (k2 :: rest) v sub) (fun sub' => Ok (dset d k (VDict sub')))
+  | Some _ => Err (Raise "AssertionError")
+  end.
+Proof. reflexivity. Qed.
+
+Lemma nf_dict_nodup ae d : nf_dict ae d = true -> NoDup (dkeys d).
+Proof. unfold nf_dict. intros H. apply andb_true_iff in H as [H _]. apply keys_ok_iff in H. tauto. Qed.
+
+Lemma fold_prefix k items : forall acc s : dict,
+  ~ In k (dkeys acc) -> Forall (fun kv => fst kv <> []) items ->
+  fold_left ustep (map (prefixkv k) items) (Ok (acc ++ [(k, VDict s)])%list) =
+  bind (fold_left ustep items (Ok s)) (fun s' => Ok (acc ++ [(k, VDict s')])%list).
+Proof.
+  induction items as [|[p v] r IH]; intros acc s Hk Hne; [reflexivity|].
+  inversion Hne as [|? ? Hp Hr]; subst. cbn [fst] in Hp. destruct p as [|p1 pr]; [congruence|].
+  cbn [map fold_left fst snd bind]. rewrite insert_path_cons2, (dget_last acc k (VDict s) Hk).
+  destruct (insert_path (p1 :: pr) v s) as [s1|e] eqn:E.
+  - cbn [bind]. rewrite (dset_last acc k (VDict s) (VDict s1) Hk). apply IH; assumption.
+  - cbn [bind]. now rewrite !fold_err.
+Qed.
+
+Lemma fold_prefix_start k items (acc : dict) :
+  ~ In k (dkeys acc) -> items <> [] -> Forall (fun kv => fst kv <> []) items ->
+  fold_left ustep (map (prefixkv k) items) (Ok acc) =
+  bind (fold_left ustep items (Ok [])) (fun s' => Ok (acc ++ [(k, VDict s')])%list).
+Proof.
+  intros Hk Hne Hall. destruct items as [|[p v] r]; [congruence|].
+  inversion Hall as [|? ? Hp Hr]; subst. cbn [fst] in Hp. destruct p as [|p1 pr]; [congruence|].
+  cbn [map fold_left fst snd bind]. rewrite insert_path_cons2. apply dget_none in Hk. rewrite Hk.
+  destruct (insert_path (p1 :: pr) v []) as [s1|e] eqn:E.
+  - cbn [bind]. apply fold_prefix; [now apply dget_none | exact Hr].
+  - cbn [bind]. now rewrite !fold_err.
+Qed.
+
+Lemma nf_val_dict ae sub : nf_val ae (VDict sub) = true ->
+  (ae = false -> sub <> []) /\ nf_dict ae sub = true.
+Proof.
+  cbn [nf_val]. intros H. apply andb_true_iff in H as [H H3]. apply andb_true_iff in H as [H1 H2].
+  split.
+  - intros ->. destruct sub; [discriminate | discriminate].
+  - unfold nf_dict. now rewrite H2, H3.
+Qed.
+
+Lemma nf_dict_cons ae k x r : nf_dict ae ((k, x) :: r) = true ->
+  nodot k = true /\ ~ In k (dkeys r) /\ nf_val ae x = true /\ nf_dict ae r = true.
+Proof.
+  unfold nf_dict, keys_ok. cbn [dkeys map fst str_nodupb forallb snd]. intros H.
+  apply andb_true_iff in H as [H H3]. apply andb_true_iff in H as [H1 H2].
+  apply andb_true_iff in H1 as [H1a H1b]. apply andb_true_iff in H2 as [H2a H2b]. apply andb_true_iff in H3 as [H3a H3b].
+  apply negb_true_iff, str_in_false in H1a. repeat split; try assumption.
+  unfold dkeys. now rewrite H1b, H2b, H3b.
+Qed.
+
+(* round trip on tuple keys, for every nesting depth; the two extra facts are what the string level needs *)
+Lemma roundtrip_val v :
+  match v with
+  | VDict cs =>
+      nf_dict false cs = true ->
+      (cs <> [] -> flatten cs <> []) /\
+      Forall (fun kv => forallb nodot (fst kv) = true) (flatten cs) /\
+      forall acc : dict, NoDup (dkeys acc ++ dkeys cs) ->
+        fold_left ustep (flatten cs) (Ok acc) = Ok (acc ++ cs)%list
+  | _ => True
+  end.
+Proof.
+  induction v as [t r|d IH|c fs _] using value_ind'; [exact I | | exact I].
+  intros Hnf. split; [|split].
+  - destruct d as [|[k x] r]; [congruence|]. intros _. rewrite flatten_cons.
+    inversion IH as [|? ? Hx _]; subst. cbn [snd] in Hx.
+    apply nf_dict_cons in Hnf as [_ [_ [Hnx _]]].
+    destruct x as [t0 r0| sub | c0 f0]; try discriminate.
+    apply nf_val_dict in Hnx as [Hne Hsub]. destruct (Hx Hsub) as [Hx1 _].
+    specialize (Hx1 (Hne eq_refl)). change (flatten_val (VDict sub)) with (flatten sub).
+    destruct (flatten sub); [congruence | discriminate].
+  - induction d as [|[k x] r IHd]; [constructor|]. rewrite flatten_cons.
+    inversion IH as [|? ? Hx Hr]; subst. cbn [snd] in Hx.
+    apply nf_dict_cons in Hnf as [Hk [_ [Hnx Hnr]]].
+    apply Forall_app. split; [|exact (IHd Hr Hnr)].
+    apply Forall_forall. intros kv Hin. apply in_map_iff in Hin as [[p v] [<- Hin]]. cbn [fst forallb].
+    rewrite Hk. cbn [andb].
+    destruct x as [t0 r0| sub | c0 f0].
+    + destruct Hin as [E|[]]. now injection E as <- <-.
+    + apply nf_val_dict in Hnx as [_ Hsub]. destruct (Hx Hsub) as [_ [Hx2 _]].
+      rewrite Forall_forall in Hx2. exact (Hx2 _ Hin).
+    + destruct Hin as [E|[]]. now injection E as <- <-.
+  - induction d as [|[k x] r IHd]; intros acc N.
+    + cbn. now rewrite app_nil_r.
+    + inversion IH as [|? ? Hx Hr]; subst. cbn [snd] in Hx.
+      apply nf_dict_cons in Hnf as [Hk [Hkr [Hnx Hnr]]].
+      assert (Hka : ~ In k (dkeys acc)).
+      { cbn [dkeys map fst] in N. apply NoDup_remove_2 in N. intros H. apply N. apply in_or_app. now left. }
+      assert (N' : NoDup (dkeys (acc ++ [(k, x)])%list ++ dkeys r)).
+      { rewrite dkeys_app. cbn [dkeys map fst app]. rewrite <- app_assoc. exact N. }
+      rewrite flatten_cons, fold_left_app.
+      assert (First : fold_left ustep (map (prefixkv k) (flatten_val x)) (Ok acc) = Ok (acc ++ [(k, x)])%list).
+      { destruct x as [t0 r0| sub | c0 f0].
+        - cbn. now rewrite (dset_notin _ _ _ Hka).
+        - apply nf_val_dict in Hnx as [Hne Hsub]. destruct (Hx Hsub) as [Hx1 [_ Hx3]].
+          change (flatten_val (VDict sub)) with (flatten sub).
+          rewrite (fold_prefix_start k (flatten sub) acc Hka (Hx1 (Hne eq_refl)) (flatten_paths_nonempty sub)).
+          assert (E : fold_left ustep (flatten sub) (Ok []) = Ok sub).
+          { apply (Hx3 []). cbn [dkeys map app]. eapply nf_dict_nodup; eassumption. }
+          match goal with |- bind ?a _ = _ => replace a with (@Ok dict sub) by (symmetry; exact E) end.
+          reflexivity.
+        - cbn. now rewrite (dset_notin _ _ _ Hka). }
+      rewrite First. etransitivity; [apply (IHd Hr Hnr _ N') | now rewrite <- app_assoc].
+Qed.
+
+Lemma NoDup_app_intro {A} (a b : list A) :
+  NoDup a -> NoDup b -> (forall x, In x a -> ~ In x b) -> NoDup (a ++ b)%list.
+Proof.
+  induction a as [|x r IH]; intros Na Nb D; [exact Nb|]. inversion Na as [|? ? Hx Nr]; subst.
+  cbn [app]. constructor.
+  - intros H. apply in_app_or in H as [H|H]; [contradiction | apply (D x (or_introl eq_refl) H)].
+  - apply IH; [exact Nr | exact Nb | intros y Hy; apply D; now right].
+Qed.
+
+Lemma NoDup_map_in {A B} (f : A -> B) l :
+  (forall x y, In x l -> In y l -> f x = f y -> x = y) -> NoDup l -> NoDup (map f l).
+Proof.
+  induction l as [|x r IH]; intros Inj N; [constructor|]. inversion N as [|? ? Hx Nr]; subst.
+  cbn [map]. constructor.
+  - intros H. apply in_map_iff in H as [y [E Hy]]. apply Hx.
+    rewrite (Inj x y (or_introl eq_refl) (or_intror Hy) (eq_sym E)). exact Hy.
+  - apply IH; [|exact Nr]. intros a b Ha Hb. apply Inj; now right.
+Qed.
+
+Lemma flatten_heads (r : dict) p : In p (map fst (flatten r)) -> exists k rest, p = k :: rest /\ In k (dkeys r).
+Proof.
+  induction r as [|[k x] r IH]; [intros []|]. rewrite flatten_cons, map_app, in_app_iff. intros [H|H].
+  - apply in_map_iff in H as [kv [<- H]]. apply in_map_iff in H as [kv' [<- _]]. cbn [fst].
+    exists k, (fst kv'). split; [reflexivity | now left].
+  - destruct (IH H) as [k' [rest [-> Hin]]]. exists k', rest. split; [reflexivity | now right].
+Qed.
+
+Lemma flatten_paths_nodup v :
+  match v with
+  | VDict cs => nf_dict false cs = true -> NoDup (map fst (flatten cs))
+  | _ => True
+  end.
+Proof.
+  induction v as [t r|d IH|c fs _] using value_ind'; [exact I | | exact I].
+  induction d as [|[k x] r IHd]; intros Hnf; [constructor|].
+  inversion IH as [|? ? Hx Hr]; subst. cbn [snd] in Hx.
+  apply nf_dict_cons in Hnf as [Hk [Hkr [Hnx Hnr]]].
+  rewrite flatten_cons, map_app. apply NoDup_app_intro.
+  - rewrite map_map. cbn [fst]. rewrite <- (map_map fst (cons k)).
+    apply NoDup_map_in; [intros a b _ _ E; now injection E|].
+    destruct x as [t0 r0| sub | c0 f0].
+    + repeat constructor. intros [].
+    + apply nf_val_dict in Hnx as [_ Hsub]. exact (Hx Hsub).
+    + repeat constructor. intros [].
+  - exact (IHd Hr Hnr).
+  - intros p H1 H2. apply flatten_heads in H2 as [k' [rest [-> Hin]]].
+    apply in_map_iff in H1 as [kv [E H1]]. apply in_map_iff in H1 as [kv' [<- _]]. cbn [fst] in E.
+    injection E as -> _. contradiction.
+Qed.
+
+Lemma dict_of_items_nodup_gen (l : dict) : forall acc : dict,
+  NoDup (dkeys acc ++ dkeys l) -> fold_left (fun a kv => dset a (fst kv) (snd kv)) l acc = (acc ++ l)%list.
+Proof.
+  induction l as [|[k v] r IH]; intros acc N; [now rewrite app_nil_r|].
+  cbn [fold_left fst snd].
+  assert (Hk : ~ In k (dkeys acc)).
+  { cbn [dkeys map fst] in N. apply NoDup_remove_2 in N. intros H. apply N. apply in_or_app. now left. }
+  rewrite (dset_notin _ _ _ Hk), IH; [now rewrite <- app_assoc|].
+  rewrite dkeys_app. cbn [dkeys map fst app]. rewrite <- app_assoc. exact N.
+Qed.
+
+Lemma dict_of_items_nodup (l : dict) : NoDup (dkeys l) -> dict_of_items l = l.
+Proof. intros N. exact (dict_of_items_nodup_gen l [] N). Qed.
+
+Lemma join_is_join_dot p : join_sep "."%char p = join_dot p.
+Proof. reflexivity. Qed.
+
+(* the dict comprehension of flatten_join never collapses two entries of a well-formed nested change set *)
+Lemma flat_items_nodup cs : wf_nested cs = true -> NoDup (dkeys (flat_items "."%char cs)).
+Proof.
+  intros W. unfold flat_items, dkeys. rewrite map_map. cbn [fst].
+  rewrite <- (map_map fst (join_sep "."%char)).
+  destruct (roundtrip_val (VDict cs) W) as [_ [Hdots _]]. rewrite Forall_forall in Hdots.
+  assert (Hne := flatten_paths_nonempty cs). rewrite Forall_forall in Hne.
+  apply NoDup_map_in; [|exact (flatten_paths_nodup (VDict cs) W)].
+  intros a b Ha Hb E. apply in_map_iff in Ha as [[pa va] [<- Ha]]. apply in_map_iff in Hb as [[pb vb] [<- Hb]].
+  cbn [fst] in *. rewrite !join_is_join_dot in E.
+  apply join_dot_inj; [exact (Hne _ Ha) | exact (Hne _ Hb) | exact (Hdots _ Ha) | exact (Hdots _ Hb) | exact E].
+Qed.
+
+(* FORMS: what flatten_join produces, unflatten_split turns back into the nested change set *)
+Theorem forms_roundtrip cs : wf_nested cs = true -> unflatten_split "."%char (flatten_join "."%char cs) = Ok cs.
+Proof.
+  intros W. unfold flatten_join. rewrite (dict_of_items_nodup _ (flat_items_nodup cs W)).
+  destruct (roundtrip_val (VDict cs) W) as [_ [Hdots RT]]. rewrite Forall_forall in Hdots.
+  assert (Hne := flatten_paths_nonempty cs). rewrite Forall_forall in Hne.
+  unfold unflatten_split, flat_items. rewrite map_map. cbn [fst snd].
+  rewrite (map_ext_in _ (fun kv => kv)).
+  - rewrite map_id. apply (RT []). cbn [dkeys map app]. eapply nf_dict_nodup; exact W.
+  - intros [p v] Hin. cbn [fst snd]. rewrite join_is_join_dot.
+    change (split_on "."%char (join_dot p) "") with (split_dot (join_dot p)).
+    rewrite (split_join_dot p (Hne _ Hin) (Hdots _ Hin)). reflexivity.
+Qed.
+
+Theorem replace_forms o cs : wf_nested cs = true -> replace F0 o (flatten_join "."%char cs) = replace F0 o cs.
+Proof. intros W. rewrite replace_unflatten, (forms_roundtrip cs W). reflexivity. Qed.
+
+(* ====================================================================== *)
+(* the result equals applying dataclasses.replace level by level           *)
+(* ====================================================================== *)
+Definition agree (a b : res value) : Prop :=
+  match a, b with
+  | Ok x, Ok y => x = y
+  | Err (Raise _), Err (Raise _) => True
+  | _, _ => False
+  end.
+
+Lemma agree_res_agree a b : agree a b -> res_agree a b = true.
+Proof.
+  destruct a as [x|[]], b as [y|[]]; cbn; try contradiction; try reflexivity.
+  intros ->. apply value_eqb_refl.
+Qed.
+
+Lemma lw_items_dget rec fs (cs : dict) : forall kw, lw_items rec fs cs = Ok kw -> forall k,
+  match dget cs k with
+  | None => dget kw k = None
+  | Some x => exists y, lw_conv rec fs x k = Ok y /\ dget kw k = Some y
+  end.
+Proof.
+  induction cs as [|[k0 x0] r IH]; intros kw H k; cbn [lw_items fst snd] in H.
+  - injection H as <-. reflexivity.
+  - apply bind_ok in H as [y [Hy H]]. apply bind_ok in H as [kw' [Hr H]]. injection H as <-.
+    cbn [dget]. destruct (String.eqb k k0) eqn:E.
+    + apply String.eqb_eq in E. subst. exists y. auto.
+    + apply (IH kw' Hr k).
+Qed.
+
+Lemma lw_items_keys rec fs (cs : dict) : forall kw, lw_items rec fs cs = Ok kw -> dkeys kw = dkeys cs.
+Proof.
+  induction cs as [|[k0 x0] r IH]; intros kw H; cbn [lw_items fst snd] in H.
+  - now injection H as <-.
+  - apply bind_ok in H as [y [Hy H]]. apply bind_ok in H as [kw' [Hr H]]. injection H as <-.
+    cbn [dkeys map fst]. f_equal. apply (IH kw' Hr).
+Qed.
+
+Lemma lw_items_err rec fs (cs : dict) e : lw_items rec fs cs = Err e ->
+  exists k x, In (k, x) cs /\ lw_conv rec fs x k = Err e.
+Proof.
+  induction cs as [|[k0 x0] r IH]; cbn [lw_items fst snd]; intros H; [discriminate|].
+  destruct (lw_conv rec fs x0 k0) as [y|e'] eqn:E; cbn [bind] in H.
+  - destruct (lw_items rec fs r) as [kw|e'] eqn:E2; cbn [bind] in H; [discriminate|]. injection H as ->.
+    destruct (IH eq_refl) as [k [x [Hin Hc]]]. exists k, x. split; [now right | exact Hc].
+  - injection H as ->. exists k0, x0. split; [now left | exact E].
+Qed.
+
+Lemma dc_fields_ok_noninit l (kw : dict) : forall l', dc_fields l kw = Ok l' ->
+  forall n t d v, In (n, FNonInit t d, v) l -> dhas kw n = false.
+Proof.
+  induction l as [|[[n0 k0] v0] r IH]; intros l' H n t d v Hin; [destruct Hin|].
+  cbn [dc_fields] in H. destruct k0 as [|t0 d0].
+  - apply bind_ok in H as [r' [Hr _]]. destruct Hin as [E|Hin]; [discriminate|]. eapply IH; eassumption.
+  - destruct (dhas kw n0) eqn:Hh; [discriminate|]. apply bind_ok in H as [r' [Hr _]].
+    destruct Hin as [E|Hin]; [injection E as <- _ _ _; exact Hh | eapply IH; eassumption].
+Qed.
+
+Lemma forallb_keys (g : string -> bool) (d : dict) : forallb (fun kv => g (fst kv)) d = forallb g (dkeys d).
+Proof. induction d as [|[k v] r IH]; [reflexivity|]. cbn [forallb dkeys map fst]. now rewrite IH. Qed.
+
+Lemma forallb_ext_in {A} (f g : A -> bool) l : (forall x, In x l -> f x = g x) -> forallb f l = forallb g l.
+Proof.
+  induction l as [|x r IH]; intros H; [reflexivity|]. cbn [forallb].
+  rewrite (H x (or_introl eq_refl)), IH; [reflexivity | intros y Hy; apply H; now right].
+Qed.
+
+Theorem levelwise_agree o : forall cs, wf_obj o = true -> deep_nf cs = true ->
+  agree (replace_ref o cs) (levelwise o cs).
+Proof.
+  induction o as [t r|d _|cls fs IH] using value_ind'; intros cs W D; try exact I.
+  apply wf_obj_dc in W as [N Wf]. rewrite Forall_forall in IH.
+  assert (Kc : NoDup (dkeys cs)). { apply deep_nf_keys, keys_ok_iff in D. tauto. }
+  unfold levelwise. cbn [levelwise_v].
+  destruct (lw_items levelwise_v fs cs) as [kw|e] eqn:LW; cbn [bind].
+  - (* the keyword arguments were all computed: the two constructions coincide field by field *)
+    assert (Each : forall l, (forall f, In f l -> In f fs) -> each replace_ref cs l = dc_fields l kw).
+    { induction l as [|[[name kd] v] r IHl]; intros Sub; [reflexivity|].
+      assert (Hfin : In (name, kd, v) fs) by (apply Sub; now left).
+      cbn [each dc_fields]. rewrite IHl by (intros f Hf; apply Sub; now right).
+      unfold newval. cbn [fname fknd fval fst snd].
+      assert (G := lw_items_dget _ _ _ _ LW name).
+      destruct (dget cs name) as [x|] eqn:Gx.
+      - destruct G as [y [Hy Gk]]. unfold dhas. rewrite Gk. destruct kd as [|t d]; [|reflexivity].
+        unfold lw_conv in Hy. rewrite (proj2 (child_flookup fs name v) (In_flookup _ _ _ _ N Hfin)) in Hy.
+        destruct x as [t0 r0| sub | c0 f0]; try (injection Hy as <-; reflexivity).
+        destruct v as [t1 r1| d1 | c' f']; try (injection Hy as <-; reflexivity).
+        cbn [is_dc]. assert (A := IH _ Hfin sub (Wf _ Hfin) (deep_nf_sub _ _ _ D Gx)).
+        cbn [fval snd] in A. unfold levelwise in A. rewrite Hy in A.
+        destruct (replace_ref (VDc c' f') sub) as [z|[]]; cbn [agree] in A; try contradiction. subst. reflexivity.
+      - unfold dhas. rewrite G. destruct kd; reflexivity. }
+    cbn [replace_ref dc_replace]. rewrite (Each fs (fun f H => H)).
+    destruct (dc_fields fs kw) as [fs'|e] eqn:DF; cbn [bind].
+    + assert (Same : forallb (fun kv => has_init_field fs (fst kv)) kw = forallb (fun kv => has_field fs (fst kv)) cs).
+      { rewrite !forallb_keys, (lw_items_keys _ _ _ _ LW). apply forallb_ext_in. intros k Hk.
+        unfold has_init_field, has_field. destruct (flookup fs k) as [[[|t d] v]|] eqn:Lk; try reflexivity.
+        exfalso. assert (Hh := dc_fields_ok_noninit _ _ _ DF k t d v (flookup_In _ _ _ _ Lk)).
+        rewrite <- (lw_items_keys _ _ _ _ LW) in Hk. apply dhas_In in Hk. congruence. }
+      rewrite Same. destruct (forallb _ cs); cbn [agree]; [reflexivity | exact I].
+    + assert (R : replace_ref (VDc cls fs) cs = Err e).
+      { cbn [replace_ref]. rewrite (Each fs (fun f H => H)), DF. reflexivity. }
+      destruct (replace_ref_err _ _ _ R) as [c ->]. exact I.
+  - (* a nested level failed: the same nested call fails inside the model *)
+    apply lw_items_err in LW as [k [x [Hin Hc]]]. unfold lw_conv in Hc.
+    destruct x as [t0 r0| sub | c0 f0]; try discriminate.
+    destruct (child fs k) as [[t1 r1| d1 | c' f']|] eqn:C; try discriminate.
+    apply child_flookup in C. assert (Hfin := flookup_In _ _ _ _ C).
+    assert (A := IH _ Hfin sub (Wf _ Hfin) (deep_nf_sub _ _ _ D (In_dget _ _ _ Kc Hin))).
+    cbn [fval snd] in A. unfold levelwise in A. rewrite Hc in A.
+    destruct (replace_ref (VDc c' f') sub) as [z|e'] eqn:R; [destruct e; contradiction|].
+    assert (Hno : is_ok (replace_ref (VDc cls fs) cs) = false).
+    { rewrite is_ok_replace_ref_dc. apply andb_false_iff. left. apply not_true_is_false. intros H.
+      rewrite forallb_forall in H. specialize (H _ Hfin). unfold newval in H. cbn [fname fknd fval fst snd] in H.
+      rewrite (In_dget _ _ _ Kc Hin) in H. cbn [is_dc] in H. rewrite R in H. discriminate. }
+    destruct (replace_ref (VDc cls fs) cs) as [z|e''] eqn:R2; [discriminate|].
+    destruct (replace_ref_err _ _ _ R2) as [c ->]. destruct e' as [| | |c2|]; try contradiction.
+    destruct e; try contradiction. exact I.
+Qed.
+
+(* ====================================================================== *)
+(* boolean equality reflects equality (to state the frame condition on leaves as an equation) *)
+(* ====================================================================== *)
+Lemma all2_eq {A} (eqb : A -> A -> bool) l1 :
+  Forall (fun x => forall y, eqb x y = true -> x = y) l1 -> forall l2, all2 eqb l1 l2 = true -> l1 = l2.
+Proof.
+  induction 1 as [|x r Hx _ IH]; intros [|y r2] H; cbn [all2] in H; try discriminate; [reflexivity|].
+  apply andb_true_iff in H as [H1 H2]. now rewrite (Hx y H1), (IH r2 H2).
+Qed.
+
+Lemma fkind_eqb_eq a b : fkind_eqb a b = true -> a = b.
+Proof.
+  destruct a as [|t d], b as [|t' d']; cbn; try discriminate; [reflexivity|].
+  intros H. apply andb_true_iff in H as [H1 H2]. apply String.eqb_eq in H1, H2. now subst.
+Qed.
+
+Lemma value_eqb_eq a : forall b, value_eqb a b = true -> a = b.
+Proof.
+  induction a as [t r|d IH|c fs IH] using value_ind'; intros [t' r'|d'|c' fs'] H; cbn [value_eqb] in H; try discriminate.
+  - apply andb_true_iff in H as [H1 H2]. apply String.eqb_eq in H1, H2. now subst.
+  - f_equal. eapply all2_eq; [|exact H]. eapply Forall_impl; [|exact IH].
+    intros [k x] Hx [k' x'] E. cbn [fst snd] in *. apply andb_true_iff in E as [E1 E2].
+    apply String.eqb_eq in E1. subst. now rewrite (Hx x' E2).
+  - apply andb_true_iff in H as [H1 H2]. apply String.eqb_eq in H1. subst. f_equal.
+    eapply all2_eq; [|exact H2]. eapply Forall_impl; [|exact IH].
+    intros [[n k] x] Hx [[n' k'] x'] E. cbn [fname fknd fval fst snd] in *.
+    apply andb_true_iff in E as [E E3]. apply andb_true_iff in E as [E1 E2].
+    apply String.eqb_eq in E1. apply fkind_eqb_eq in E2. subst. now rewrite (Hx x' E3).
+Qed.
+
+(* ====================================================================== *)
+(* the statements, about the model instantiated with the regenerated facts  *)
+(* ====================================================================== *)
+Lemma gen_is_ref o cs : wf_obj o = true -> deep_nf cs = true -> replace_gen o cs = replace_ref o cs.
+Proof. intros W D. change (replace_gen o cs) with (replace F0 o cs). now apply model_ref. Qed.
+
+Theorem gen_meets_spec o cs : wf_obj o = true -> deep_nf cs = true -> frame_check o cs (replace_gen o cs) = true.
+Proof. intros W D. rewrite (gen_is_ref o cs W D). now apply ref_meets_spec. Qed.
+
+Theorem gen_frame_addressed o cs o' q v : wf_obj o = true -> deep_nf cs = true ->
+  replace_gen o cs = Ok o' -> In (q, v) (assigns o cs) -> get o' q = Some v.
+Proof. intros W D. rewrite (gen_is_ref o cs W D). now apply addressed. Qed.
+
+(* every other LEAF (reached through init fields, not addressed, not inside a replaced member) equals the original *)
+Theorem gen_frame_other_leaf o cs o' p x : wf_obj o = true -> deep_nf cs = true ->
+  replace_gen o cs = Ok o' -> untouched (assigns o cs) p = true ->
+  get o p = Some x -> is_dc x = false -> get o' p = Some x.
+Proof.
+  intros W D. rewrite (gen_is_ref o cs W D). intros R U G L.
+  assert (S := untouched_same o cs o' p W D R U). rewrite G in S.
+  destruct x as [t r| d | c f]; [| |discriminate]; cbn [node_same] in S;
+    destruct (get o' p) as [[t' r'| d' | c' f']|]; try discriminate; apply value_eqb_eq in S; now rewrite S.
+Qed.
+
+(* every other NODE keeps its class and its fields *)
+Theorem gen_frame_other_node o cs o' p : wf_obj o = true -> deep_nf cs = true ->
+  replace_gen o cs = Ok o' -> untouched (assigns o cs) p = true -> node_same (get o p) (get o' p) = true.
+Proof. intros W D. rewrite (gen_is_ref o cs W D). now apply untouched_same. Qed.
+
+Theorem gen_nil cls fs : replace_gen (VDc cls fs) [] = Ok (VDc cls (reset_noninit fs)).
+Proof. exact (replace_nil cls fs). Qed.
+
+Theorem gen_nil_identity cls fs : noninit_at_default fs = true -> replace_gen (VDc cls fs) [] = Ok (VDc cls fs).
+Proof. intros H. rewrite gen_nil. now rewrite (reset_at_default fs H). Qed.
+
+Theorem gen_forms o cs : wf_nested cs = true -> replace_gen o (flatten_join_gen cs) = replace_gen o cs.
+Proof. exact (replace_forms o cs). Qed.
+
+Theorem gen_dotted_any_level o ch :
+  replace_gen o ch = bind (unflatten_split_gen ch) (fun n => replace_gen o n).
+Proof. exact (replace_unflatten o ch). Qed.
+
+Theorem gen_unflatten_flatten cs : wf_nested cs = true -> unflatten_split_gen (flatten_join_gen cs) = Ok cs.
+Proof. exact (forms_roundtrip cs). Qed.
+
+Theorem gen_keyword o cs : replace_call_gen o None cs = replace_call_gen o (Some cs) [].
+Proof. exact (keyword_form facts_gen o cs). Qed.
+
+Theorem gen_keyword_is_replace o cs : replace_call_gen o None cs = replace_gen o cs.
+Proof. reflexivity. Qed.
+
+Theorem gen_both_rejected o x r y k : exists c, replace_call_gen o (Some (x :: r)) (y :: k) = Err (Raise c).
+Proof. eexists. reflexivity. Qed.
+
+Theorem gen_levelwise o cs : wf_obj o = true -> deep_nf cs = true -> agree (replace_gen o cs) (levelwise o cs).
+Proof. intros W D. rewrite (gen_is_ref o cs W D). now apply levelwise_agree. Qed.
+
+Theorem gen_errors o cs : wf_obj o = true -> deep_nf cs = true ->
+  must_raise o cs = true -> exists c, replace_gen o cs = Err (Raise c).
+Proof.
+  intros W D M. rewrite (gen_is_ref o cs W D). assert (K := ok_iff_not_must_raise o cs W D). rewrite M in K.
+  destruct (replace_ref o cs) as [o'|e] eqn:R; [discriminate|]. destruct (replace_ref_err _ _ _ R) as [c ->]. eauto.
+Qed.
+
+Theorem gen_total o cs : wf_obj o = true -> deep_nf cs = true ->
+  must_raise o cs = false -> exists o', replace_gen o cs = Ok o'.
+Proof.
+  intros W D M. rewrite (gen_is_ref o cs W D). assert (K := ok_iff_not_must_raise o cs W D). rewrite M in K.
+  destruct (replace_ref o cs) as [o'|e]; [eauto | discriminate].
+Qed.
+
+(* the top-level reading of "raise instead of being ignored": a key that is not an init field of obj *)
+Theorem gen_errors_top cls fs cs k x : wf_obj (VDc cls fs) = true -> deep_nf cs = true ->
+  In (k, x) cs -> has_init_field fs k = false -> exists c, replace_gen (VDc cls fs) cs = Err (Raise c).
+Proof.
+  intros W D Hin Hk. apply gen_errors; [exact W | exact D|]. rewrite must_raise_dc. apply existsb_exists.
+  exists (k, x). split; [exact Hin|]. unfold bad_entry, child. cbn [fst snd]. unfold has_init_field in Hk.
+  destruct (flookup fs k) as [[[|t d] v]|]; [discriminate | reflexivity | reflexivity].
+Qed.
